@@ -2,9 +2,9 @@
    Statements only; proofs live in Proofs/Visitor*.v. *)
 From Coq Require Import List NArith Bool.
 From GQL Require Import Visitor.VisitorTree Visitor.VisitorWalk Visitor.VisitorLoop
-     Visitor.VisitorKeysSpec Gen.VisitorKeys Visitor.TypeInfo
+     Visitor.VisitorKeysSpec Gen.VisitorKeys Visitor.TypeInfo Visitor.TypeInfoPre
      Proofs.VisitorWalkProofs Proofs.VisitorLoopProofs Proofs.VisitorParallelProofs
-     Proofs.VisitorTypeInfoProofs.
+     Proofs.VisitorTypeInfoProofs Visitor.VisitorOrder Proofs.VisitorOrderProofs.
 Import ListNotations.
 
 (* The iterative loop of visitor.Visit, as written (explicit stack, keys, index, path,
@@ -92,6 +92,63 @@ Theorem C14_enter_leave_matched_nested : forall keys_of sel pol,
 Proof. exact VisitorParallelProofs.walk_nested. Qed.
 Print Assumptions C14_enter_leave_matched_nested.
 
+(* ---- document order and "exactly once" ---- *)
+(* Without a break the events of the walk, read as (phase, node, kind) marks, are the Euler
+   tour of the tree by the key table -- a node, its children's tours in key order unless it
+   is skipped, the node again -- restricted to the kinds and phases for which the visitor has
+   a function. *)
+Theorem C14_document_order : forall keys_of sel pol,
+  (forall id ph, pol id ph <> Break) -> forall n c key,
+  map ev_mark (fst (walk keys_of sel pol c key n)) = shown sel (tour keys_of (skips sel pol) n).
+Proof. exact walk_is_tour. Qed.
+Print Assumptions C14_document_order.
+
+(* hence: enter events list the nodes that are not below a skipped node in pre-order, leave
+   events list those of them that are not skipped themselves in post-order *)
+Theorem C14_enter_preorder_leave_postorder : forall keys_of sel pol t,
+  (forall id ph, pol id ph <> Break) ->
+  enter_ids (walk_events keys_of sel pol t)
+  = map g_id (filter (has_fn sel PEnter) (enters keys_of (skips sel pol) t))
+  /\ leave_ids (walk_events keys_of sel pol t)
+     = map g_id (filter (has_fn sel PLeave) (leaves keys_of (skips sel pol) t))
+  /\ Sub (enters keys_of (skips sel pol) t) (preorder keys_of t)
+  /\ (forall m, In m (leaves keys_of (skips sel pol) t)
+                <-> In m (enters keys_of (skips sel pol) t) /\ skips sel pol m = false).
+Proof.
+  intros keys_of sel pol t Hnb. split; [apply enter_order; exact Hnb|]. split; [apply leave_order; exact Hnb|].
+  split; [apply enters_sub_preorder | intros m; apply left_iff_visited_not_skipped].
+Qed.
+Print Assumptions C14_enter_preorder_leave_postorder.
+
+(* For a tree whose nodes (those reachable through the key table) have pairwise distinct
+   identities and a policy that never breaks: a node that is not below a skipped node is
+   entered exactly once (when a function is selected for its kind); it is left exactly once
+   when moreover it is not skipped itself; any other identity -- in particular every node
+   below a skipped node -- occurs in no enter and no leave event. *)
+Theorem C14_exactly_once : forall keys_of sel pol t,
+  (forall id ph, pol id ph <> Break) ->
+  NoDup (map g_id (preorder keys_of t)) ->
+  forall x,
+    (count_occ N.eq_dec (enter_ids (walk_events keys_of sel pol t)) x = 1%nat
+     <-> In x (map g_id (filter (has_fn sel PEnter) (enters keys_of (skips sel pol) t))))
+    /\ (count_occ N.eq_dec (leave_ids (walk_events keys_of sel pol t)) x = 1%nat
+        <-> In x (map g_id (filter (has_fn sel PLeave) (leaves keys_of (skips sel pol) t))))
+    /\ (~ In x (map g_id (enters keys_of (skips sel pol) t)) ->
+        count_occ N.eq_dec (enter_ids (walk_events keys_of sel pol t)) x = 0%nat
+        /\ count_occ N.eq_dec (leave_ids (walk_events keys_of sel pol t)) x = 0%nat).
+Proof. exact exactly_once. Qed.
+Print Assumptions C14_exactly_once.
+
+(* With breaks: the events are a prefix of the events of the same policy with every break
+   read as continue, and every node is entered at most once and left at most once. *)
+Theorem C14_break_prefix_at_most_once : forall keys_of sel pol t,
+  (exists rest, walk_events keys_of sel (unbreak pol) t = walk_events keys_of sel pol t ++ rest)
+  /\ (NoDup (map g_id (preorder keys_of t)) ->
+      forall x, (count_occ N.eq_dec (enter_ids (walk_events keys_of sel pol t)) x <= 1)%nat
+                /\ (count_occ N.eq_dec (leave_ids (walk_events keys_of sel pol t)) x <= 1)%nat).
+Proof. intros. split; [apply events_prefix | apply at_most_once]. Qed.
+Print Assumptions C14_break_prefix_at_most_once.
+
 (* ---- VisitInParallel ---- *)
 (* The wrapper answers "no change" to the loop whatever the sub-visitors answer, so the loop
    hands it the full traversal; through the skipping bookkeeping as coded, a sub-visitor with
@@ -127,6 +184,36 @@ Theorem C14_typeinfo : forall sch attr sel pol keys_of kind_of t,
                        | None => [] end) outer.
 Proof. intros * Hok Hk. exact (typeinfo_reports_types_at sch attr sel pol keys_of kind_of t Hok Hk). Qed.
 Print Assumptions C14_typeinfo.
+
+(* the same with the hypothesis "node kind determined by node identity" as a checked
+   precondition: kinds_fun t decides that no identity occurs twice in the tree, and the
+   id -> kind table of the tree is then the kind function *)
+Theorem C14_typeinfo_checked : forall sch attr sel pol keys_of t,
+  ti_ok false false t = true -> kinds_fun t = true ->
+  let kind_of := kind_of_tree t in
+  let outer := walk_events keys_of par_sel (twi_pol sel pol kind_of) t in
+  ti_run sch attr sel pol ti_init outer
+  = flat_map (fun e => match sel (e_kind e) (e_phase e) with
+                       | Some _ => [(e_phase e, e_id e, types_at sch attr (chain_of kind_of e))]
+                       | None => [] end) outer.
+Proof. intros * Hok Hk. exact (typeinfo_checked sch attr sel pol keys_of t Hok Hk). Qed.
+Print Assumptions C14_typeinfo_checked.
+
+(* The validator's composition VisitWithTypeInfo(typeInfo, VisitInParallel(subs...)): the
+   traversal is the full one (the parallel wrapper never skips or breaks), TypeInfo is told
+   of every node, and each sub-visitor -- dispatched through the skipping marks -- reads, in
+   exactly the callbacks of its own walk, types_at of the chain of enclosing nodes. *)
+Theorem C14_stacked_typeinfo : forall sch attr sel pol keys_of t,
+  tree_ok t = true -> ti_ok false false t = true -> kinds_fun t = true ->
+  let kind_of := kind_of_tree t in
+  stack_run sch attr sel pol ti_init None (walk_events keys_of par_sel par_pol t)
+  = map (fun e => (e_phase e, e_id e, types_at sch attr (chain_of kind_of e)))
+        (walk_events keys_of sel pol t).
+Proof.
+  intros * Ht Hok Hk. apply (stacked_reports_types_at sch attr sel pol keys_of (kind_of_tree t) t Ht Hok).
+  intros i k Hin. apply kinds_fun_tbl; assumption.
+Qed.
+Print Assumptions C14_stacked_typeinfo.
 
 (* ---- the generated child-key table ---- *)
 Theorem C14_keys_complete :
